@@ -105,33 +105,41 @@ NrcSample(i, s) == IF i \in Representative THEN 0..255
                    ELSE {49, 17, 120, 33, 1, 255, 149, 35, 133, s}
 OtherSid(s) == IF s = 16 THEN 17 ELSE 16
 
-C(i, r, label) == [req |-> ReqTable[i].req, raw |-> ReqTable[i].raw, reply |-> r, cls |-> label]
+(* the table with the genuine reply of every entry, as a set of concrete values *)
+Entries == { [idx |-> i, req |-> ReqTable[i].req, raw |-> ReqTable[i].raw,
+              gen |-> Genuine(ReqTable[i].req)] : i \in 1..N }
 
-CasesOf(i) ==
-  LET q == ReqTable[i].req
-      s == q[1]
-      g == Genuine(q)
-      k == Len(Echo(q)) IN
-       { C(i, g, "genuine") }
-  \cup { C(i, Genuine(ReqTable[j].req), "other-positive") : j \in (1..N) \ {i} }
-  \cup { C(i, Bump(g, p + 1, p = 1 /\ HasSf(s)), "echo-changed") :
+CasesOf(e, All) ==
+  LET q == e.req
+      s == e.req[1]
+      g == e.gen
+      k == Len(Echo(e.req))
+      C(r, label) == [req |-> e.req, raw |-> e.raw, reply |-> r, cls |-> label] IN
+       { C(g, "genuine") }
+  \cup { C(o.gen, "other-positive") : o \in All \ {e} }
+  \cup { C(Bump(g, p + 1, p = 1 /\ HasSf(s)), "echo-changed") :
             p \in 1..(IF ReqOk(q) /\ Len(g) > k THEN k ELSE 0) }
   \cup (IF HasSf(s) /\ Len(g) >= 2
-        THEN { C(i, [g EXCEPT ![2] = g[2] + 128], "suppress-bit"),
-               C(i, [g EXCEPT ![2] = ((g[2] + 1) % 128) + 128], "suppress-bit-other") }
+        THEN { C([g EXCEPT ![2] = g[2] + 128], "suppress-bit"),
+               C([g EXCEPT ![2] = ((g[2] + 1) % 128) + 128], "suppress-bit-other") }
         ELSE {})
-  \cup { C(i, << NEG, s, c >>, "neg-same") : c \in NrcSample(i, s) }
-  \cup { C(i, << NEG, OtherSid(s), c >>, "neg-other") : c \in {49, 1, 255, 149, s} }
-  \cup { C(i, << NEG >>, "neg-len1"), C(i, << NEG, s >>, "neg-same-len2"),
-         C(i, << NEG, OtherSid(s) >>, "neg-other-len2"),
-         C(i, << NEG, s, 49, 0 >>, "neg-same-len4"), C(i, << NEG, s, 1, 0 >>, "neg-same-len4-reserved"),
-         C(i, << NEG, OtherSid(s), 49, 0 >>, "neg-other-len4") }
-  \cup { C(i, SubSeq(g, 1, n), "truncated") : n \in 1..(Len(g) - 1) }
-  \cup { C(i, g \o << 0 >>, "extended") }
-  \cup { C(i, SubSeq(Genuine(ReqTable[j].req), 1, Min(n, Len(Genuine(ReqTable[j].req)))),
-           "other-truncated") : j \in (1..N) \ {i}, n \in {1, 2} }
+  \cup { C(<< NEG, s, c >>, "neg-same") : c \in NrcSample(e.idx, s) }
+  \cup { C(<< NEG, OtherSid(s), c >>, "neg-other") : c \in {49, 1, 255, 149, s} }
+  \cup { C(<< NEG >>, "neg-len1"), C(<< NEG, s >>, "neg-same-len2"),
+         C(<< NEG, OtherSid(s) >>, "neg-other-len2"),
+         C(<< NEG, s, 49, 0 >>, "neg-same-len4"), C(<< NEG, s, 1, 0 >>, "neg-same-len4-reserved"),
+         C(<< NEG, OtherSid(s), 49, 0 >>, "neg-other-len4") }
+  \cup { C(SubSeq(g, 1, n), "truncated") : n \in 1..(Len(g) - 1) }
+  \cup { C(g \o << 0 >>, "extended") }
+  \cup { C(SubSeq(o.gen, 1, Min(n, Len(o.gen))), "other-truncated") : o \in All \ {e}, n \in {1, 2} }
 
-MCCases == UNION { CasesOf(i) : i \in 1..N }
+(* (bound variables hold VALUES in TLC: the table is built once, not once per use) *)
+MCCases == UNION { UNION { CasesOf(e, All) : e \in All } : All \in {Entries} }
+
+(* reduced space for the negative controls: the three representative services
+   plus the requests the deviations are about *)
+SmallIdx == Representative \cup {16, 25}
+MCCasesSmall == UNION { UNION { CasesOf(e, All) : e \in { x \in All : x.idx \in SmallIdx } } : All \in {Entries} }
 
 (* sanity of the wrapper itself: the genuine reply of every well-formed,
    modelled request of the table is demanded to be accepted by the contract *)
